@@ -11,6 +11,7 @@ import (
 	"runtime"
 	"sort"
 	"strings"
+	"symgo/smt"
 	"sync"
 	"sync/atomic"
 	"time"
@@ -29,6 +30,8 @@ type TierCfg struct {
 	FeasMs       int            `json:"feas_ms"`
 	AssertMs     int            `json:"assert_ms"`
 	AbstractURem bool           `json:"abstract_urem"`
+	SolverOpts   []string       `json:"solver_options"` // extra SMT-LIB commands sent to the solver at start
+	NoLift       bool           `json:"no_lift"`        // keep Int comparisons in the Int theory (pair with z3's int-blasting bv solver)
 }
 
 type HarnessCfg struct {
@@ -287,6 +290,7 @@ func RunCheck(o RunOpts, propID string) int {
 
 func runHarness(L *Loaded, o RunOpts, h *HarnessCfg, fn *ssa.Function) (*harnessReport, *JobResult) {
 	t := h.cur
+	smt.NoLift = t.NoLift
 	cfg := &Config{Unwind: t.Unwind, MaxSteps: t.MaxSteps, FeasTimeoutMs: t.FeasMs, AssertTimeout: t.AssertMs,
 		MaxPaths: t.MaxPaths, MapOrder: t.MapOrder, Verbose: o.Verbose}
 	if cfg.Unwind == 0 {
